@@ -28,7 +28,7 @@ RULE = ('programs: random Annex A derivations with explicit semicolons (one alte
 ASSUMPTIONS = ['refjs implements 7.9.1 literally (three rules, restricted productions, the two overriding conditions) '
                'and is the oracle; ES2015 do-while leniency is not part of the dialect']
 BUDGET_S = {'quick': 75, 'thorough': 900}
-REQUIRED_HITS = ['parse', 'create_semi_token', 'asi_events_compared']
+REQUIRED_HITS = ['parse', 'create_semi_token', 'asi_events_compared', 'multiline_token']
 FLOOR = {'quick': 3000, 'thorough': 40000}
 
 SEPARATORS = [
@@ -260,6 +260,12 @@ def run(ctx):
                       sample={'template': tpl, 'separators': [c[0] for c in combo], 'text': text}
                       if idx % 997 == 0 else None)
         ctx.count('templates', len(TEMPLATES))
+
+        # a line break inside a string is not one between tokens; one inside a comment is
+        for idx, text in enumerate(work.multiline_token_texts()):
+            if idx % ctx.nshards == ctx.shard:
+                check(ctx, log, text, text, True, 'multiline_token')
+                ctx.hit('multiline_token')
 
         from vk.gen import products
         for idx, (key, text) in enumerate(products.lexical_products()):
